@@ -11,4 +11,5 @@ CONSTANTS
   JumpMags = {16, 32}
   QStale = FALSE
   QExact0 = FALSE
+  QBackstep = FALSE
 INVARIANTS Bounds Residual WalkerMeaning PathIndependent SmallIsStep
